@@ -7,6 +7,7 @@ import (
 	"errors"
 	"fmt"
 	"strings"
+	"time"
 
 	"github.com/elementsproject/peerswap/swap"
 )
@@ -81,14 +82,20 @@ type Payment struct {
 type PayOutcome int
 
 const (
-	PaySuccess    PayOutcome = iota
-	PayFailClean             // error, no HTLC left behind
-	PayErrPending            // error returned although the HTLC is still in flight
-	PayErrSettled            // error returned although the payment was settled
+	PaySuccess     PayOutcome = iota
+	PayFailClean              // error, no HTLC left behind
+	PayErrPending             // error returned although the HTLC is still in flight
+	PayErrSettled             // error returned although the payment was settled
+	PaySlowSuccess            // the call blocks (HTLC in flight) for longer than the payer's retry budget, then succeeds
 )
 
+// SlowPayDelay is how long a PaySlowSuccess attempt blocks (wall clock). It only has to exceed the
+// retry budget the harness configures (swap.VerifSetPayTiming); code that waits for the call to
+// return - as the claim-payment loop does - behaves the same whatever the value.
+var SlowPayDelay = 130 * time.Millisecond
+
 func (o PayOutcome) String() string {
-	return [...]string{"success", "fail", "err-pending", "err-settled"}[o]
+	return [...]string{"success", "fail", "err-pending", "err-settled", "slow-success"}[o]
 }
 
 // Channel is a lightning channel between two nodes.
@@ -204,6 +211,7 @@ type PayCall struct {
 	Outcome   string
 	StateWas  PayState
 	Err       string
+	Returned  bool // the call has returned to the node (false while it blocks or if the process died inside it)
 }
 
 type notifier struct {
@@ -327,6 +335,27 @@ func (n *NodeLN) pay(kind, payreq, scid string, maxTotal uint32) (string, error)
 				pay.State = PayFailed
 			}
 			err = errors.New("stream closed before payment result")
+		case PaySlowSuccess:
+			if !settleable {
+				pay.State = PayFailed
+				pay.HTLCs++
+				err = errors.New("payment failed: incorrect_or_unknown_payment_details")
+				break
+			}
+			// the HTLC is out and the call does not return until it resolves
+			pay.State = PayPending
+			pay.Payreq = payreq
+			pay.HTLCs++
+			w.mu.Unlock()
+			time.Sleep(SlowPayDelay)
+			w.mu.Lock()
+			if pay.State == PayPending {
+				pre = w.LN.settle(pay, payreq)
+			} else if pay.State == PaySucceeded {
+				pre = reg.Preimage
+			} else {
+				err = errors.New("payment failed: temporary_channel_failure")
+			}
 		}
 	}
 	if err != nil {
@@ -336,6 +365,9 @@ func (n *NodeLN) pay(kind, payreq, scid string, maxTotal uint32) (string, error)
 	if n.p.point(call, "exit", pc.Outcome) {
 		return "", ErrDead
 	}
+	w.mu.Lock()
+	pc.Returned = true
+	w.mu.Unlock()
 	return pre, err
 }
 
